@@ -13,6 +13,7 @@ import (
 	"sort"
 	"strconv"
 	"strings"
+	"sync/atomic"
 	"time"
 
 	"github.com/sanonone/kektordb/pkg/core"
@@ -65,6 +66,7 @@ type Runner struct {
 	// wall-clock interval of every executed operation: edge timestamps are projected onto the operation
 	// that produced them (one operation may stamp several edges with slightly different times)
 	opIntervals [][2]int64
+	cuts        int // number of VDeleteCut operations executed (rotates the cut point inside the cascade)
 	// Dirty: an uncommitted bulk import is in memory (documented to be lost by a restart until
 	// VImportCommit or another snapshot/compaction persists it)
 	Dirty bool
@@ -623,12 +625,22 @@ func (r *Runner) exec(op map[string]any) (string, error) {
 		// cancels the cascade), then restart: recovery has to repair the dangling edges
 		tick()
 		gate := make(chan struct{})
+		// where the shutdown cuts the cascade rotates: before its first edge, after one edge, after two edges
+		// (the specification's outcome does not depend on it: recovery completes the cascade from the VDEL record)
+		cutAfter := r.cuts % 3
+		r.cuts++
+		var edges int32
 		verifhook.Set(func(name string, kv []any) {
 			if r.ExtraHook != nil {
 				r.ExtraHook(name, kv)
 			}
-			if name == "cascade.start" {
+			if name == "cascade.start" && cutAfter == 0 {
 				<-gate
+			}
+			if name == "cascade.edge" && cutAfter > 0 {
+				if int(atomic.AddInt32(&edges, 1)) == cutAfter+1 {
+					<-gate
+				}
 			}
 		})
 		err := e.VDelete(str(op, "n"), r.id(str(op, "id")))
